@@ -289,6 +289,25 @@ def _classify_value_store(chk, fb, f, n, kind):
 
 def _classify_constraint_store(chk, fb, f, n, kind):
     cfg = f.cfg
+    if is_call(n) and n["callee"]["name"] in ("swap", "reset") and not f.rec.get("ctor"):
+        # x.swap(constraint_) / constraint_.swap(x) / constraint_.reset(): a removal when the other side is an empty smart pointer
+        other = None
+        if n["callee"]["name"] == "reset" and not f.args(n):
+            chk.proved("D1", f.key, "null-install", f.loc(n), "constraint removed (reset())")
+            return
+        if n["callee"]["name"] == "swap" and "obj" in n and f.args(n):
+            o, a_ = strip(f.obj(n)), strip(f.args(n)[0])
+            other = a_ if "constraint_" in render(o) else o
+        if other is not None and other["k"] == "DeclRefExpr" and other["decl"]["kind"] == "local":
+            decl = [d for dn in f.all_nodes() if dn["k"] == "DeclStmt" for d in dn["decls"] if d["id"] == other["decl"]["id"]]
+            init = decl[0].get("init") if decl else None
+            empty = init is None or (strip(init)["k"] in ("CXXConstructExpr", "CXXTemporaryObjectExpr") and not [x for x in f.args(strip(init)) if render(x) != "<default>"])
+            writes = [w for w in f.all_nodes() if w is not n and is_call(w) and w["callee"]["name"] in ("operator=", "reset") and "obj" in w and render(f.obj(w)) == other["decl"]["name"]]
+            if empty and not writes:
+                chk.proved("D1", f.key, "null-install", f.loc(n), "constraint removed (swapped with an empty pointer)")
+                return
+        chk.unknown("D1", f.key, "unclassified-constraint-write:" + kind, f.loc(n), "constraint_ modified by %s: not a recognised form" % render(n))
+        return
     if not (is_call(n) and n["callee"]["name"] == "operator="):
         chk.refuted("D1", f.key, "unclassified-constraint-write:" + kind, f.loc(n), "constraint_ modified by %s" % render(n))
         return
@@ -303,6 +322,14 @@ def _classify_constraint_store(chk, fb, f, n, kind):
         for text, truth, node in facts:
             if text == c and truth is False:
                 return True
+            nn = strip(node)
+            if nn is not None and nn["k"] == "BinaryOperator" and nn.get("op") == "||" and truth:
+                # 'A || B' holds: enough that each alternative on its own establishes the guard
+                if all(est(e1.cond_facts(d, True)) for d in kids(nn)):
+                    return True
+            if nn is not None and nn["k"] == "BinaryOperator" and nn.get("op") == "&&" and truth is False:
+                if all(est(e1.cond_facts(d, False)) for d in kids(nn)):
+                    return True
             if is_call(node) and node["callee"]["name"] == "isCorrect" and truth:
                 nodes = {x["id"]: x for x in walk(node)}
                 o = render(nodes[node["obj"]]) if "obj" in node else ""
